@@ -45,7 +45,9 @@ func ruleExpansion(w *World, r *Report) {
 		r.add("MAXSEL", fn+" / zoom reads", pos, Undecided, "HZoom() and VZoom() of the argument are not both read")
 		return
 	}
-	isH := func(g *ssa.Function) bool { return funcIs(g, modPath+"/integrate", "HorizontalZoomMinMax") || funcIs(g, modPath+"/integrate", "HorizontalZoom") }
+	isH := func(g *ssa.Function) bool {
+		return funcIs(g, modPath+"/integrate", "HorizontalZoomMinMax") || funcIs(g, modPath+"/integrate", "HorizontalZoom")
+	}
 	isV := func(g *ssa.Function) bool { return funcIs(g, modPath+"/integrate", "VerticalZoom") }
 	names := map[rel]string{relLT: "hZoom < vZoom", relEQ: "hZoom == vZoom", relGT: "hZoom > vZoom"}
 	for _, rl := range []rel{relLT, relEQ, relGT} {
